@@ -16,17 +16,21 @@ def _chain(v):
 
 def _seg_class(v):
     vs = values_in(v)
-    if any(x.k == 'typeof' for x in vs):
+    if any(x.k == 'typeof' for x in vs) or any(
+            x.k == 'term' and x.a[0] == 'map' and x.a[1] and x.a[1][0].k == 'builtin' and x.a[1][0].a[0] == 'type'
+            for x in vs):
         return 'types'
     if v.k == 'param' and v.a[0] == 'base':
         return 'base'
-    if any(x.k == 'param' and x.a[0] == 'args' for x in vs):
-        return 'args'
     if any((x.k == 'term' and x.a[0] == 'sorted') or (x.k == 'param' and x.a[0] == 'kwargs') or
            (x.k == 'mcall' and x.a[0] == 'items') for x in vs):
         return 'items'
-    if v.k == 'tuple' or v.is_const or v.k == 'modconst':
+    if any(x.k == 'param' and x.a[0] == 'args' for x in vs):
+        return 'args'
+    if (v.k == 'tuple' and v.a[0]) or (v.is_const and isinstance(v.val, tuple) and v.val) or v.k == 'modconst':
         return 'sep'
+    if v.k == 'tuple' or (v.is_const and v.val == ()):
+        return 'empty'
     return 'other'
 
 
@@ -59,7 +63,7 @@ def m1(ctx):
     for p in ctx.paths(f, 'plain'):
         if p.kind != 'return':
             continue
-        ops = _chain(p.outcome[1])
+        ops = [o for o in _chain(p.outcome[1]) if _seg_class(o) != 'empty']
         cl = [_seg_class(o) for o in ops]
         if 'types' in cl:
             first = cl.index('types')
@@ -102,66 +106,118 @@ def m1(ctx):
     ]
 
 
-@rule('M2', floor=4, title='typed appends the type of every kept value; ignore filters positions and names before both')
+def _filter_tests(trace, source):
+    """TEST events `X not in ignore` (assumed true) where X derives from `source` ('args' index or 'kwargs' name)."""
+    out = []
+    for e in trace:
+        if e.kind != 'TEST':
+            continue
+        v = e.d['val']
+        truth = e.d['truth']
+        while v.k == 'not':
+            v = v.a[0]
+            truth = not truth
+        if v.k != 'cmp' or len(v.a[0]) != 1 or v.a[0][0] not in ('In', 'NotIn'):
+            continue
+        x, cont = v.a[1]
+        if not (cont.k == 'param' and cont.a[0] == 'ignore'):
+            continue
+        kept = truth if v.a[0][0] == 'NotIn' else (not truth)
+        xs = values_in(x)
+        if source == 'args':
+            hit = any(y.k == 'term' and y.a[0] == 'enumerate' and y.a[1] and y.a[1][0].k == 'param'
+                      and y.a[1][0].a[0] == 'args' for y in xs) and x.k in ('field', 'item') and x.a[1] in (0, C(0))
+        else:
+            hit = any((y.k == 'mcall' and y.a[0] in ('items', 'keys')) or (y.k == 'param' and y.a[0] == 'kwargs')
+                      for y in xs) and not any(y.k == 'term' and y.a[0] == 'enumerate' for y in xs)
+            if x.k in ('field', 'item') and x.a[1] not in (0, C(0)):
+                hit = False
+        if hit and kept:
+            out.append(e)
+    return out
+
+
+@rule('M2', floor=5, title='typed appends the type of every kept value; ignore filters positions and names before both')
 def m2(ctx):
     f = ctx.func('core.args_to_key')
-    node = f.node
-    obs = []
-    # (a) positional filter
-    pos_filter = kw_filter = False
-    pos_line = kw_line = None
-    for n in ast.walk(node):
-        if isinstance(n, ast.Assign) and len(n.targets) == 1 and isinstance(n.targets[0], ast.Name):
-            tgt = n.targets[0].id
-            for c in ast.walk(n.value):
-                if isinstance(c, ast.comprehension):
-                    it = ast.unparse(c.iter)
-                    conds = [ast.unparse(x) for x in c.ifs]
-                    if tgt == 'args' and 'enumerate(args)' in it and any('not in ignore' in x for x in conds):
-                        tv = c.target
-                        names = [e.id for e in tv.elts] if isinstance(tv, ast.Tuple) else []
-                        if names and any(x == '%s not in ignore' % names[0] for x in conds):
-                            pos_filter = True
-                            pos_line = n.lineno
-                    if tgt == 'kwargs' and 'kwargs.items()' in it and any('not in ignore' in x for x in conds):
-                        tv = c.target
-                        names = [e.id for e in tv.elts] if isinstance(tv, ast.Tuple) else []
-                        if names and any(x == '%s not in ignore' % names[0] for x in conds):
-                            kw_filter = True
-                            kw_line = n.lineno
-    obs.append(Ob('M2', 'ignore/positional', pos_filter, 'positional arguments are not filtered by index against '
-                  '`ignore` before the key is built', f.loc()))
-    obs.append(Ob('M2', 'ignore/keyword', kw_filter, 'keyword arguments are not filtered by name against `ignore` '
-                  'before the key is built', f.loc()))
-    # (b) typed: under `if typed`, types of every kept positional and (if kwargs) of every sorted item value
-    okp = okk = False
-    for n in ast.walk(node):
-        if isinstance(n, ast.If) and ast.unparse(n.test) == 'typed':
-            if pos_line is not None and n.lineno < pos_line:
-                continue
-            for c in ast.walk(n):
-                if isinstance(c, ast.GeneratorExp) or isinstance(c, ast.ListComp):
-                    g = c.generators[0]
-                    elt = ast.unparse(c.elt)
-                    it = ast.unparse(g.iter)
-                    if it == 'args' and elt == 'type(%s)' % ast.unparse(g.target) and not g.ifs:
-                        okp = True
-                    if it in ('sorted_items', 'sorted(kwargs.items())') and isinstance(g.target, ast.Tuple) and \
-                            len(g.target.elts) == 2 and elt == 'type(%s)' % ast.unparse(g.target.elts[1]) and not g.ifs:
-                        okk = True
-    obs.append(Ob('M2', 'typed/positional', okp, 'with typed=True the type of every kept positional value is not '
-                  'appended: f(1) and f(1.0) share an entry', f.loc()))
-    obs.append(Ob('M2', 'typed/keyword', okk, 'with typed=True the type of every kept keyword value is not appended',
-                  f.loc()))
-    # sorted items come from the filtered kwargs
-    srt = False
-    for n in ast.walk(node):
-        if isinstance(n, ast.Assign) and ast.unparse(n.value) == 'sorted(kwargs.items())':
-            if kw_line is not None and n.lineno > kw_line:
-                srt = True
-    obs.append(Ob('M2', 'keyword/sorted-after-filter', srt, 'keyword pairs are not sorted (after filtering): the key '
-                  'depends on the order in which keywords were written', f.loc()))
-    return obs
+    res = {'ignore/positional': [True, 0], 'ignore/keyword': [True, 0], 'typed/positional': [True, 0],
+           'typed/keyword': [True, 0], 'keyword/sorted-after-filter': [True, 0], 'untyped/no-types': [True, 0]}
+    wit = {}
+    for p in ctx.paths(f, 'plain'):
+        if p.kind != 'return':
+            continue
+        ops = [o for o in _chain(p.outcome[1]) if _seg_class(o) != 'empty']
+        cl = [_seg_class(o) for o in ops]
+        typed = p.st.facts.get(('truthy', V('param', 'typed', 'core')))
+        # positional values kept in the key
+        argsops = [o for o, c in zip(ops, cl) if c == 'args']
+        has_args = any(any(y.k == 'term' and y.a[0] == 'enumerate' for y in values_in(o)) or
+                       any(y.k == 'elem' for y in values_in(o)) for o in argsops)
+        if has_args:
+            res['ignore/positional'][1] += 1
+            if not _filter_tests(p.trace, 'args'):
+                res['ignore/positional'][0] = False
+                wit['ignore/positional'] = fmt_trace(p.trace)
+        itemops = [o for o, c in zip(ops, cl) if c == 'items']
+        if itemops:
+            res['ignore/keyword'][1] += 1
+            ft = _filter_tests(p.trace, 'kwargs')
+            if not ft:
+                res['ignore/keyword'][0] = False
+                wit['ignore/keyword'] = fmt_trace(p.trace)
+            res['keyword/sorted-after-filter'][1] += 1
+            srt = [y for o in itemops for y in values_in(o) if y.k == 'term' and y.a[0] == 'sorted']
+            good = bool(srt)
+            if good and ft:
+                # what is sorted was produced after the filter ran
+                feeds = [y for t in srt for y in values_in(t) if y.k in ('mcall',) and isinstance(y.a[1], int)]
+                lists = [y for t in srt for y in values_in(t) if y.k in ('list', 'mdict', 'comp')]
+                if feeds and not any(fe.a[1] > ft[0].seq for fe in feeds) and not lists:
+                    good = False
+            if not good:
+                res['keyword/sorted-after-filter'][0] = False
+                wit['keyword/sorted-after-filter'] = fmt_trace(p.trace)
+        typeops = [o for o, c in zip(ops, cl) if c == 'types']
+        if typed is True:
+            res['typed/positional'][1] += 1
+            pos_t = [o for o in typeops if any(y.k == 'param' and y.a[0] == 'args' for y in values_in(o))
+                     or any(y.k in ('elem',) and any(z.k == 'tuple' or z.k == 'list' for z in values_in(y)) for y in values_in(o))]
+            if has_args and not pos_t and not typeops:
+                res['typed/positional'][0] = False
+                wit['typed/positional'] = fmt_trace(p.trace)
+            if has_args and typeops and not any(
+                    any(y.k == 'param' and y.a[0] == 'args' for y in values_in(o)) for o in typeops):
+                res['typed/positional'][0] = False
+                wit['typed/positional'] = fmt_trace(p.trace)
+            # a slice / partial iteration of the kept positionals loses types
+            for o in typeops:
+                if any(y.k == 'slice' for y in values_in(o)):
+                    res['typed/positional'][0] = False
+                    wit['typed/positional'] = fmt_trace(p.trace)
+            kw_tests = [e for e in p.trace if e.kind == 'TEST' and (
+                e.d['val'].k in ('comp', 'mdict') or (e.d['val'].k == 'param' and e.d['val'].a[0] == 'kwargs'))]
+            if itemops and all(e.d['truth'] for e in kw_tests):
+                res['typed/keyword'][1] += 1
+                if not any(any((y.k == 'term' and y.a[0] == 'sorted') or (y.k == 'mcall' and y.a[0] == 'items')
+                               for y in values_in(o)) for o in typeops):
+                    res['typed/keyword'][0] = False
+                    wit['typed/keyword'] = fmt_trace(p.trace)
+        elif typed is False:
+            res['untyped/no-types'][1] += 1
+            if typeops:
+                res['untyped/no-types'][0] = False
+    msgs = {
+        'ignore/positional': 'positional arguments are kept in the key without having been filtered by their index '
+                             'against `ignore`',
+        'ignore/keyword': 'keyword arguments are kept in the key without having been filtered by name against `ignore`',
+        'typed/positional': 'with typed=True the type of every kept positional value is not appended: f(1) and f(1.0) '
+                            'share an entry',
+        'typed/keyword': 'with typed=True the type of every kept keyword value is not appended',
+        'keyword/sorted-after-filter': 'keyword pairs are not sorted (after filtering): the key depends on the order in '
+                                       'which keywords were written',
+        'untyped/no-types': 'types are appended although typed is false',
+    }
+    return [Ob('M2', k, ok and n > 0, msgs[k], f.loc(), wit.get(k)) for k, (ok, n) in res.items()]
 
 
 # ---------------------------------------------------------------------- M3
@@ -260,8 +316,8 @@ def m3(ctx):
             keyev = [e for e in tr if e.kind == 'MCALL' and e.d['name'] == '__cache_key__' and e.d['recv'].k == 'func'
                      and e.d['recv'].a[0] == f.qual]
             gets = [e for e in tr if e.kind == 'CALL' and e.d['name'] == 'get']
-            sets = [e for e in tr if e.kind == 'CALL' and e.d['name'] == 'set' and e.fn is f]
-            users = [e for e in tr if _is_user_call(e) and e.fn is f]
+            sets = [e for e in tr if e.kind == 'CALL' and e.d['name'] == 'set' and not e.d.get('inlined')]
+            users = [e for e in tr if _is_user_call(e)]
             if len(keyev) != 1 or not _passes_all_args(keyev[0]) or len(gets) != 1:
                 res['lookup'] = [False, fmt_trace(tr)]
                 continue
@@ -332,11 +388,11 @@ def m3(ctx):
     for g in all_nested(outer):
         for p in ctx.paths(g, 'plain'):
             for e in p.trace:
-                if _is_user_call(e) and e.fn is g:
+                if _is_user_call(e):
                     ncalls += 1
                     if not _passes_all_args(e):
                         ok, why = False, '%s calls the function without (*args, **kwargs)' % g.qual
-                if e.kind == 'EXT' and e.d['name'] == 'threading.Thread' and e.fn is g:
+                if e.kind == 'EXT' and e.d['name'] == 'threading.Thread':
                     tgt = e.d['kwargs'].get('target')
                     if tgt is not None and tgt.k == 'func':
                         tf = ctx.prog.funcs.get(tgt.a[0])
